@@ -5,9 +5,9 @@ import tools_seeded as T
 
 pid = sys.argv[1]
 allchecks = "all" in sys.argv[2:]
-rnd = 12 if "round12" in sys.argv[2:] else 11 if "round11" in sys.argv[2:] else 10 if "round10" in sys.argv[2:] else 9 if "round9" in sys.argv[2:] else 8 if "round8" in sys.argv[2:] else 7 if "round7" in sys.argv[2:] else 6 if "round6" in sys.argv[2:] else 5 if "round5" in sys.argv[2:] else 4 if "round4" in sys.argv[2:] else (3 if "round3" in sys.argv[2:] else (2 if "round2" in sys.argv[2:] else 1))
-src = {1: "/tmp/seed-out/%s", 2: "/tmp/seed-out2/%s", 3: "/tmp/seed-out3/%s", 4: "/tmp/seed-out4/%s", 5: "/tmp/seed-out5/%s", 6: "/tmp/seed-out6/%s", 7: "/tmp/seed-out7/%s", 8: "/tmp/seed-out8/%s", 9: "/tmp/seed-out9/%s", 10: "/tmp/seed-out10/%s", 11: "/tmp/seed-out11/%s", 12: "/tmp/seed-out12/%s"}[rnd] % pid
-LETTER = {(1, ""): "a", (1, "2"): "b", (2, ""): "c", (2, "2"): "d", (3, ""): "e", (3, "2"): "f", (4, ""): "g", (4, "2"): "h", (5, ""): "i", (5, "2"): "j", (6, ""): "k", (6, "2"): "l", (7, ""): "m", (7, "2"): "n", (8, ""): "o", (8, "2"): "p", (9, ""): "q", (9, "2"): "r", (10, ""): "s", (10, "2"): "t", (11, ""): "u", (11, "2"): "v", (12, ""): "w", (12, "2"): "x"}
+rnd = 13 if "round13" in sys.argv[2:] else 12 if "round12" in sys.argv[2:] else 11 if "round11" in sys.argv[2:] else 10 if "round10" in sys.argv[2:] else 9 if "round9" in sys.argv[2:] else 8 if "round8" in sys.argv[2:] else 7 if "round7" in sys.argv[2:] else 6 if "round6" in sys.argv[2:] else 5 if "round5" in sys.argv[2:] else 4 if "round4" in sys.argv[2:] else (3 if "round3" in sys.argv[2:] else (2 if "round2" in sys.argv[2:] else 1))
+src = {1: "/tmp/seed-out/%s", 2: "/tmp/seed-out2/%s", 3: "/tmp/seed-out3/%s", 4: "/tmp/seed-out4/%s", 5: "/tmp/seed-out5/%s", 6: "/tmp/seed-out6/%s", 7: "/tmp/seed-out7/%s", 8: "/tmp/seed-out8/%s", 9: "/tmp/seed-out9/%s", 10: "/tmp/seed-out10/%s", 11: "/tmp/seed-out11/%s", 12: "/tmp/seed-out12/%s", 13: "/tmp/seed-out13/%s"}[rnd] % pid
+LETTER = {(1, ""): "a", (1, "2"): "b", (2, ""): "c", (2, "2"): "d", (3, ""): "e", (3, "2"): "f", (4, ""): "g", (4, "2"): "h", (5, ""): "i", (5, "2"): "j", (6, ""): "k", (6, "2"): "l", (7, ""): "m", (7, "2"): "n", (8, ""): "o", (8, "2"): "p", (9, ""): "q", (9, "2"): "r", (10, ""): "s", (10, "2"): "t", (11, ""): "u", (11, "2"): "v", (12, ""): "w", (12, "2"): "x", (13, ""): "y", (13, "2"): "z"}
 for suffix in ("", "2"):
     patch, demo, notes = "patch%s.diff" % suffix, "demo%s.py" % suffix, "notes%s.json" % suffix
     if not os.path.exists(os.path.join(src, patch)) or not os.path.exists(os.path.join(src, demo)):
